@@ -896,7 +896,7 @@ public:
 		const unsigned tag_sz=MAX_MSGTYPE_FIELD_LEN, const unsigned val_sz=FIX8_MAX_FLD_LENGTH)
 	{
 		enum { get_tag, get_value } state(get_tag);
-		char * const tag_start(tag), * const val_start(val);
+		char * const tag_start(tag), * const val_start(val); // what was extracted so far stays in tag and val, terminated
 
 		for (unsigned ii(0); ii < sz; ++ii)
 		{
@@ -906,11 +906,11 @@ public:
 				if (!isdigit(static_cast<unsigned char>(from[ii])))
 				{
 					if (from[ii] != default_assignment_separator)
-						return *val_start = *tag_start = 0;
+						return *val = *tag = 0;
 					state = get_value;
 				}
 				else if (static_cast<unsigned>(tag - tag_start) + 1 >= tag_sz)
-					return *val_start = *tag_start = 0;
+					return *val = *tag = 0;
 				else
 					*tag++ = from[ii];
 				break;
@@ -921,12 +921,12 @@ public:
 					return ++ii;
 				}
 				if (static_cast<unsigned>(val - val_start) + 1 >= val_sz)
-					return *val_start = *tag_start = 0;
+					return *val = *tag = 0;
 				*val++ = from[ii];
 				break;
 			}
 		}
-		return *val_start = *tag_start = 0;
+		return *val = *tag = 0;
 	}
 
 	/*! Extract a tag and fixed width value element from a char buffer. ULL version.
